@@ -1,5 +1,6 @@
 import ChiModel.Reduced
 import ChiModel.ReducedSegments
+import ChiModel.ReducedSim
 set_option linter.unusedSectionVars false
 namespace ChiModel.Reduced
 variable {α : Type}
@@ -531,3 +532,116 @@ example : (runSegs (0 : Nat) (["m", "ID 1", "ID 2", "p"], [[("p", some 4), ("ID 
 
 
 end ChiModel.Reduced
+
+namespace ChiModel.Reduced.Sim
+
+theorem pkpdEnable_protocol (m m' : Model) (e : Bool) (r : Option (List String))
+    (h : pkpdEnable m e r = some m') (hp : m.sim.protocol = true) : m'.sim.protocol = true := by
+  unfold pkpdEnable at h
+  simp only [Option.map_eq_some_iff] at h
+  obtain ⟨a, ha, rfl⟩ := h
+  cases e <;> cases hh : m.has
+  · simp [sbmlEnable, hh] at ha
+    subst ha
+    simpa [hh] using hp
+  · simp
+  · simp
+  · simp
+
+theorem redEnable_protocol (m m' : Model) (e : Bool) (h : redEnable m e = some m')
+    (hp : m.sim.protocol = true) : m'.sim.protocol = true := by
+  unfold redEnable at h
+  simp only at h
+  split at h
+  · exact pkpdEnable_protocol _ _ _ _ h hp
+  · split at h
+    · simp only [Option.map_eq_some_iff] at h
+      obtain ⟨a, ha, rfl⟩ := h
+      exact pkpdEnable_protocol _ a _ _ ha hp
+    · exact pkpdEnable_protocol _ _ _ _ h hp
+
+theorem step_protocol (m m' : Model) (o : Op) (h : step m o = some m')
+    (hp : m.sim.protocol = true) : m'.sim.protocol = true := by
+  cases o with
+  | enable b => exact redEnable_protocol _ _ _ h hp
+  | fix fl =>
+    simp only [step, redFix] at h
+    split at h
+    · exact redEnable_protocol _ _ _ h hp
+    · cases h; exact hp
+
+/-- whatever the history of enable / disable / fix / re-fix / release calls: the simulator in use carries the
+    dosing protocol of the model -/
+theorem C08_sim_protocol_kept (ops : List Op) : ∀ (m : Model), m.sim.protocol = true →
+    (life m ops).sim.protocol = true := by
+  induction ops with
+  | nil => intro m hp; exact hp
+  | cons o os ih =>
+    intro m hp
+    simp only [life]
+    apply ih
+    cases hs : step m o with
+    | none => exact hp
+    | some m' => exact step_protocol _ _ _ hs hp
+
+theorem inj_of_nodup_pub : ∀ (pars : List Par), (pars.map (·.pub)).Nodup → ∀ q p, q ∈ pars → p ∈ pars →
+    q.pub = p.pub → q = p := by
+  intro pars
+  induction pars with
+  | nil => intro _ q p hq; cases hq
+  | cons a as ih =>
+    intro hnd q p hq hp hpub
+    simp only [List.map_cons, List.nodup_cons, List.mem_map, not_exists, not_and] at hnd
+    rcases List.mem_cons.mp hq with rfl | hq' <;> rcases List.mem_cons.mp hp with rfl | hp'
+    · rfl
+    · exact absurd hpub.symm (hnd.1 p hp')
+    · exact absurd hpub (hnd.1 q hq')
+    · exact ih hnd.2 q p hq' hp' hpub
+
+/-- requested by public name, reported by internal name: with distinct public names the sensitivity columns
+    are exactly the free parameters, in the original order — whatever the user-defined names are -/
+theorem C08_sens_columns_are_free (pars : List Par) (hnd : (pars.map (·.pub)).Nodup) :
+    select pars (freePub pars) = freeInternal pars := by
+  unfold select freeInternal
+  congr 1
+  apply List.filter_congr
+  intro p hp
+  by_cases hf : p.fixed = true
+  · have : ¬ p.pub ∈ freePub pars := by
+      intro hmem
+      simp only [freePub, List.mem_map, List.mem_filter] at hmem
+      obtain ⟨q, ⟨hq, hqf⟩, hpub⟩ := hmem
+      have := inj_of_nodup_pub pars hnd q p hq hp hpub
+      subst this
+      simp [hf] at hqf
+    simp [hf, this]
+  · have : p.pub ∈ freePub pars := by
+      simp only [freePub, List.mem_map, List.mem_filter]
+      exact ⟨p, ⟨hp, by simpa using hf⟩, rfl⟩
+    simp [hf, this]
+
+theorem C08_sens_columns_count (pars : List Par) (hnd : (pars.map (·.pub)).Nodup) :
+    (select pars (freePub pars)).length = pars.countP (fun p => !p.fixed) := by
+  rw [C08_sens_columns_are_free pars hnd, freeInternal, List.length_map, List.countP_eq_length_filter]
+
+/-- the seeded slips, as models: (C08-15) the protocol is set again only when the sensitivities are switched
+    on or off; (C08-16) the request is matched against the INTERNAL names -/
+def pkpdEnableOnSwitch (m : Model) (enabled : Bool) (req : Option (List String)) : Option Model :=
+  let newSim := enabled != m.has
+  (sbmlEnable m enabled req).map fun m' =>
+    if newSim then { m' with sim := { m'.sim with protocol := true } } else m'
+
+def selectInternal (pars : List Par) (req : List String) : List String :=
+  (pars.filter (fun p => req.contains p.internal)).map (·.internal)
+
+theorem C08_sim_slips_counterexample :
+    let pars := [Par.mk false "central.drug_amount" "central.drug_amount", Par.mk true "central.size" "Volume",
+                 Par.mk false "global.elimination_rate" "k_e"]
+    let m : Model := ⟨pars, ⟨some ["central.drug_amount"], true⟩, true, false⟩
+    ((pkpdEnableOnSwitch m true (some (freePub pars))).map (·.sim.protocol)) = some false ∧
+    ((pkpdEnable m true (some (freePub pars))).map (·.sim.protocol)) = some true ∧
+    selectInternal pars (freePub pars) = ["central.drug_amount"] ∧
+    select pars (freePub pars) = ["central.drug_amount", "global.elimination_rate"] := by
+  decide
+
+end ChiModel.Reduced.Sim
